@@ -47,6 +47,7 @@ type Proc struct {
 var parking = map[string]bool{"beforeLock": true, "locked": true, "afterRead": true, "afterWrite": true, "window": true}
 
 type proc struct {
+	at string // where it last parked
 	Proc
 	gate    chan struct{}
 	arrived chan string
@@ -218,6 +219,7 @@ func Execute(id int, srv *bt.Server, setup []bt.Op, procs []Proc, sched []string
 	arrive := func(p *proc, what string) bool {
 		select {
 		case pt := <-p.arrived:
+			p.at = pt
 			if pt == "exit" {
 				p.done, p.parked = true, false
 			} else {
@@ -234,6 +236,7 @@ func Execute(id int, srv *bt.Server, setup []bt.Op, procs []Proc, sched []string
 			for more := true; more; {
 				select {
 				case pt := <-p.arrived:
+					p.at = pt
 					if pt == "exit" {
 						p.done, p.parked = true, false
 					} else {
@@ -251,21 +254,43 @@ func Execute(id int, srv *bt.Server, setup []bt.Op, procs []Proc, sched []string
 		}
 		wg.Wait()
 	} else {
-		for _, name := range sched {
-			p := r.procs[name]
-			if p == nil || p.done {
-				continue
-			}
+		step := func(p *proc) bool { // one step of p; false if it made no progress (blocked in a primitive) or is done
 			drain()
+			if p.done {
+				return false
+			}
 			if !p.started {
 				start(p)
-				arrive(p, "start")
-				continue
+				return arrive(p, "start")
 			}
 			if p.parked {
 				p.parked = false
 				p.gate <- struct{}{}
-				arrive(p, "step")
+				return arrive(p, "step")
+			}
+			return false
+		}
+		for _, name := range sched {
+			// "p": one step of p; "p>point": steps of p until it parks at that point (or returns, or blocks);
+			// "p!": steps of p until its request returns (or blocks)
+			target, toEnd := "", false
+			if i := strings.Index(name, ">"); i >= 0 {
+				name, target = name[:i], name[i+1:]
+			} else if strings.HasSuffix(name, "!") {
+				name, toEnd = name[:len(name)-1], true
+			}
+			p := r.procs[name]
+			if p == nil || p.done {
+				continue
+			}
+			if target == "" && !toEnd {
+				step(p)
+				continue
+			}
+			for n := 0; n < 10000 && step(p); n++ {
+				if target != "" && p.at == target {
+					break
+				}
 			}
 		}
 		// finish: release everything until all requests have returned
